@@ -179,6 +179,31 @@ func (vc *VC) loadPtr(st *State, ptr string, elem types.Type) string {
 	return fmt.Sprintf("(select %s %s)", vc.heap(st, key, sort), ptr)
 }
 
+// sliceArr yields the element array of a slice value.
+func (vc *VC) sliceArr(st *State, typ types.Type, t string) string {
+	S := vc.eng.S
+	sn := S.sortOf(typ)
+	if S.handle[sn] {
+		k, srt := S.sliceHeap(sn)
+		return fmt.Sprintf("(select %s (arr_%s %s))", vc.heap(st, k, srt), sn, t)
+	}
+	return fmt.Sprintf("(arr_%s %s)", sn, t)
+}
+
+// mkSlice builds a slice value over a (fresh) backing array.
+func (vc *VC) mkSlice(st *State, typ types.Type, arr, ln, isnil string) string {
+	S := vc.eng.S
+	sn := S.sortOf(typ)
+	if S.handle[sn] {
+		k, srt := S.sliceHeap(sn)
+		ref := vc.define("sl", "Int", st.next)
+		st.next = vc.define("next", "Int", fmt.Sprintf("(+ %s 1)", ref))
+		vc.setHeap(st, k, srt, fmt.Sprintf("(store %s %s %s)", vc.heap(st, k, srt), ref, arr))
+		return fmt.Sprintf("(mk_%s %s %s %s)", sn, ref, ln, isnil)
+	}
+	return fmt.Sprintf("(mk_%s %s %s %s)", sn, arr, ln, isnil)
+}
+
 func (vc *VC) mapDom(st *State, m *types.Map, ref string) string {
 	dk, ds, _, _ := vc.eng.S.heapKeyMap(m)
 	return fmt.Sprintf("(select %s %s)", vc.heap(st, dk, ds), ref)
@@ -396,8 +421,7 @@ func (tc *TrCtx) tr0(e Expr) TVal {
 			tc.emitAlloc(r)
 			return r
 		case *types.Slice:
-			sn := S.sortOf(x.typ)
-			r := TVal{fmt.Sprintf("(select (arr_%s %s) %s)", sn, x.t, i.t), u.Elem()}
+			r := TVal{fmt.Sprintf("(select %s %s)", tc.vc.sliceArr(tc.st, x.typ, x.t), i.t), u.Elem()}
 			if tc.ac != nil {
 				tc.setAC(r.t, tc.ac[x.t])
 			}
